@@ -30,7 +30,7 @@ def _props():
         "C15": {
             "engine": histsim.execute, "gen": histsim.plan_c15, "level": "exploration",
             "clauses": ["input_unmodified", "history_independent", "option_independent", "worker_independent", "keys_stable", "config_stable"],
-            "quick": 1500, "thorough": 60000, "shrink": histsim.candidates,
+            "quick": 4000, "thorough": 100000, "shrink": histsim.candidates,
             "required_probes": ["compared_history_independent", "compared_option_independent", "compared_worker_independent", "pool_out_of_order", "clock_jump", "set_log_group_times"],
         },
         "C16": {
